@@ -45,11 +45,15 @@ impl SessionRef {
     pub fn get_cell(&self) -> ActorCell { unimplemented!() }
 }
 impl ScopeGroupKey {
+    pub uninterp spec fn scope(&self) -> String;
+    pub uninterp spec fn group(&self) -> String;
     #[verifier::external_body]
-    pub fn get_scope(&self) -> String { unimplemented!() }
+    pub fn get_scope(&self) -> (r: String) ensures r == self.scope() { unimplemented!() }
     #[verifier::external_body]
-    pub fn get_group(&self) -> String { unimplemented!() }
+    pub fn get_group(&self) -> (r: String) ensures r == self.group() { unimplemented!() }
 }
+/// the local members of a scoped process group at the moment it is read (A-snapshot, per group)
+pub uninterp spec fn members_of(scope: String, group: String) -> Seq<ActorCell>;
 
 /// HashSet<u64> stand-in (A-std)
 #[verifier::external_body] pub struct PidSet { _p: u8 }
@@ -70,7 +74,7 @@ pub fn vx_get_all_pids() -> (r: Vec<ActorCell>) ensures r@ == registry_pids() { 
 #[verifier::external_body]
 pub fn which_scopes_and_groups() -> Vec<ScopeGroupKey> { unimplemented!() }
 #[verifier::external_body]
-pub fn get_scoped_local_members(scope: &String, group: &String) -> Vec<ActorCell> { unimplemented!() }
+pub fn get_scoped_local_members(scope: &String, group: &String) -> (r: Vec<ActorCell>) ensures r@ == members_of(*scope, *group) { unimplemented!() }
 /// the two `&'static str` notification names of ractor::pg (which name is which does not matter to any contract here)
 pub struct NoteName { pub k: u8 }
 impl NoteName {
